@@ -129,3 +129,13 @@ Theorem fj_deterministic :
   map seen (snd (run s1 m (map start progs))) = map seen (snd (run s2 m (map start progs))).
 Proof. exact fj_deterministic_fact. Qed.
 Print Assumptions fj_deterministic.
+
+(* the JOIN of a fan-out: when every goroutine calls Done exactly once (on every path; the translator establishes the count per
+   goroutine from the current source) and as many were Added, the WaitGroup counter is 0 once all have finished - Wait returns -
+   and never negative at any point of any interleaving - Done never panics.  gen/FanOut.v instantiates it on the current
+   source (fanouts_join, fanouts_join_completes) *)
+Theorem join_ok_completes :
+  forall (added : nat) (ds : list nat),
+  join_ok added ds = true -> wg_counter added ds = 0%Z /\ wg_never_negative added ds.
+Proof. exact join_ok_completes_fact. Qed.
+Print Assumptions join_ok_completes.
